@@ -79,6 +79,32 @@ def proj_key(p):
     return tuple(out)
 
 
+def _canon_ite(t):
+    """conditional values with a closed arithmetic meaning"""
+    _, c, a, b = t
+    # match x.checked_sub(y) { Some(v) => v, None => 0 }  ==  x.saturating_sub(y)   (also unwrap_or(0) / unwrap_or_default() once spliced)
+    if c[0] == "cmp" and c[1] == "Eq" and c[3] == ("c", 1) and c[2][0] == "discr":
+        chk = c[2][1]
+        while chk[0] == "zext":
+            chk = chk[1]
+        if chk[0] == "checked" and chk[1] == "Sub" and b == ("c", 0):
+            av = a
+            while av[0] == "zext":
+                av = av[1]
+            if av[0] == "fld" and av[2] == 0 and av[1][0] == "dc" and av[1][2] == 1 and av[1][1] == chk:
+                return ("saturating", "Sub", chk[2], chk[3])
+    # if x < y { 0 } else { x - y }  /  if x >= y { x - y } else { 0 }
+    if c[0] == "cmp" and c[1] in ("Lt", "Ge", "Le", "Gt"):
+        x, y = c[2], c[3]
+        for (cond_op, then_v, else_v) in ((c[1], a, b),):
+            sub = lambda p, q, v: v[0] == "bin" and v[1] in ("Sub", "SubUnchecked") and v[2] == p and v[3] == q
+            if cond_op == "Lt" and then_v == ("c", 0) and sub(x, y, else_v):
+                return ("saturating", "Sub", (x, y), else_v[4] if len(else_v) > 4 else None)
+            if cond_op == "Ge" and else_v == ("c", 0) and sub(x, y, then_v):
+                return ("saturating", "Sub", (x, y), then_v[4] if len(then_v) > 4 else None)
+    return t
+
+
 class Summary:
     """What a callee contributes at a call site: return term and facts on normal return,
     both over ('arg', i, ty) atoms of the callee."""
@@ -341,8 +367,8 @@ class TB:
         branch, outside any loop through the use -> ("ite", condition fact, value if it holds, value otherwise)"""
         if len(rd) != 2 or any(d[0] not in ("stmt", "call") for d in rd):
             return None
-        if L == 0:
-            return None     # the return place: several exits stay several exits (CHAIN), not one conditional value
+        if L == 0 and self.local_ty(0) not in INT_BITS and self.local_ty(0) != "bool":
+            return None     # the return place of an enum/struct-valued function: several exits stay several exits (CHAIN)
         key = ("ite", L, P, tuple(sorted(rd)))
         if key in self._memo:
             return self._memo[key]
@@ -363,7 +389,7 @@ class TB:
 
         def nearest(bb):
             for (d, s_, lab) in g.dominating_edges(bb):
-                if b.term(d)["k"] in ("switch", "assert"):
+                if b.term(d)["k"] == "switch":      # assertions on the way (overflow checks) are not the choice between the two values
                     return d, g.edge_facts(d, s_, lab)
             return None, []
         n1, f1 = nearest(d1[1])
@@ -384,7 +410,7 @@ class TB:
             return 0
         if rank(c) > rank(a):
             a, c, v1, v2 = c, a, v2, v1
-        out = ("ite", a, v1, v2)
+        out = _canon_ite(("ite", a, v1, v2))
         self._memo[key] = out
         return out
 
@@ -526,6 +552,9 @@ class TB:
         return ("opq", "rv", k)
 
     def binop(self, op, a, b, aty=None):
+        if op in ("Sub", "SubUnchecked") and a[0] == "max" and (a[1] == b or a[2] == b):
+            # max(x, y) - y  ==  x.saturating_sub(y)
+            return ("saturating", "Sub", (a[2] if a[1] == b else a[1], b), aty)
         if a[0] == "c" and b[0] == "c":
             x, y = a[1], b[1]
             bits = INT_BITS.get(aty, 64)
@@ -850,6 +879,12 @@ def std_summary(tb, path, upath, fr, args):
         return ("min", args[0], args[1])
     if path in ("core::cmp::Ord::max", "core::cmp::max") or path.endswith("::max") and path.startswith("core::cmp::impls::<impl core::cmp::Ord for "):
         return ("max", args[0], args[1])
+    if path.startswith("<") and path.endswith(" as core::default::Default>::default") and (path[1:].split(" as ")[0] in INT_BITS or path[1:].split(" as ")[0] == "bool"):
+        return C(0)
+    if path.startswith("core::default::impls::<impl core::default::Default for ") and path.endswith(">::default"):
+        ty = path[len("core::default::impls::<impl core::default::Default for "):-len(">::default")]
+        if ty in INT_BITS or ty == "bool":
+            return C(0)
     if path in ("core::option::Option::<&T>::cloned", "core::option::Option::<&T>::copied"):
         return ("optderef", args[0])
     if path in ("core::option::Option::<T>::unwrap", "core::option::Option::<T>::expect"):
